@@ -17,7 +17,7 @@ RULE = ('all 7^3 ordered triples of wavelength unit names (4 units + 3 aliases) 
 ASSUMPTIONS = ["lentil's physical constants differ from CODATA by < 1e-6 relative (tolerance 1e-5 on absolute Planck values)"]
 EXHAUSTIVE = True
 PLAN = {'quick': {'gen': 4}, 'thorough': {'gen': 8, 'tests': 1, 'docs': 1}}
-REQUIRED_BUCKETS = ['wave-triple', 'flux-triple', 'spectrum.to:density', 'spectrum.to:unitless', 'spectrum.to:flux-roundtrip', 'spectrum.to:multi',
+REQUIRED_BUCKETS = ['wave-triple', 'flux-triple', 'spectrum.to:density', 'spectrum.to:unitless', 'spectrum.to:flux-roundtrip', 'spectrum.to:multi', 'spectrum.sample:unit', 'blackbody:converted',
                     'planck:radiance', 'planck:exitance', 'wien', 'stefan-boltzmann', 'vega']
 REQUIRED_ANCHORS = ['anchor:Spectrum.to', 'anchor:planck_radiance', 'anchor:planck_exitance', 'anchor:vegaflux',
                     'anchor:Photlam.to', 'anchor:Micron.to']
@@ -172,6 +172,60 @@ def workload(ctx, lentil):
         si1 = sm.flux_to_wlam_si(np.asarray(a.value, float) / sm.WAVE_M[a.waveunit], a.valueunit, wm1)
         ctx.close('flux=si', si1 / si0, np.ones(npts), 1e-6, 'to-multi|physical',
                   'a spectrum converted with Spectrum.to(u1, u2, ...) no longer describes the same physical flux', desc, scale=1.0)
+    # ---- sampling / resampling a per-wavelength density in another wavelength unit == converting, then sampling -------------
+    for i in range(n):
+        npts = int(rng.integers(3, 20))
+        u0, u1 = sm.WAVE_CANON[int(rng.integers(0, 4))], sm.WAVE_CANON[int(rng.integers(0, 4))]
+        wave_nm = np.cumsum(rng.uniform(2, 30, size=npts)) + rng.uniform(200, 900)
+        value = rng.uniform(0.1, 5, size=npts)
+        vu = [None, 'photlam', 'flam', 'wlam'][int(rng.integers(0, 4))]
+        desc = {'sample-in-unit': [u0, u1], 'valueunit': vu, 'n': npts}
+        ctx.case(desc, ['spectrum.sample:unit'])
+        s0 = R.Spectrum(wave_nm * sm.wave_factor('nm', u0), value.copy(), waveunit=u0, valueunit=vu)
+        q_nm = np.sort(rng.uniform(wave_nm[0] + 1, wave_nm[-1] - 1, size=6))
+        q = q_nm * sm.wave_factor('nm', u1)
+        try:
+            got = np.asarray(s0.sample(q, waveunit=u1), float)
+            # reference: the density per unit u1 is the density per unit u0 divided by (u1 per u0)
+            dens = value / sm.wave_factor(u0, u1) if vu is not None else value
+            ref = sm.interp_linear(q_nm, wave_nm, dens, 0.0)
+            ctx.close('to:integral', got, ref, 1e-9, 'sample|other-unit' + ('|density' if vu else ''),
+                      'sampling a spectrum in another wavelength unit differs from converting it to that unit and sampling', desc,
+                      scale=float(np.max(np.abs(ref))))
+            s1 = R.Spectrum(wave_nm * sm.wave_factor('nm', u0), value.copy(), waveunit=u0, valueunit=vu)
+            grid_nm = np.linspace(wave_nm[0], wave_nm[-1], 4 * npts)
+            I0 = sm.integral_pl(wave_nm * sm.wave_factor('nm', u0), value, wave_nm[0] * sm.wave_factor('nm', u0), wave_nm[-1] * sm.wave_factor('nm', u0))
+            s1.resample(grid_nm * sm.wave_factor('nm', u1), waveunit=u1)
+            I1 = float(np.trapz(np.asarray(s1.value, float), np.asarray(s1.wave, float)))
+            if vu is not None:
+                ctx.close('to:integral', np.array([I1]), np.array([I0]), 0.25, 'resample|other-unit|integral',   # rough data on a new grid: interpolation accuracy only
+                          'resampling a per-wavelength density into another wavelength unit does not preserve its integral', desc,
+                          scale=abs(I0))
+        except Exception as e:
+            ctx.check(False, 'to:integral', f'sample-unit|raises={type(e).__name__}', str(e), desc)
+    # ---- a Blackbody converted to other units still samples Planck's law in its *current* units -------------------------------
+    for i in range(max(8, n // 3)):
+        T = float(rng.uniform(2000, 12000))
+        u0, u1 = sm.WAVE_CANON[int(rng.integers(0, 4))], sm.WAVE_CANON[int(rng.integers(0, 4))]
+        v0, v1 = sm.FLUX[int(rng.integers(0, 3))], sm.FLUX[int(rng.integers(0, 3))]
+        wave_nm = np.linspace(400, 2000, int(rng.integers(5, 30)))
+        desc = {'blackbody-after-to': [u0, v0, u1, v1], 'T': T}
+        ctx.case(desc, ['blackbody:converted'])
+        try:
+            bb = R.Blackbody(wave_nm * sm.wave_factor('nm', u0), T, waveunit=u0, valueunit=v0)
+            order = [u1, v1] if i % 2 else [v1, u1]
+            for u in order:
+                bb.to(u)
+            q_nm = np.array([450.0, 777.0, 1500.0])
+            wm = q_nm * 1e-9
+            ref_si = sm.planck_radiance_si(wm, T)
+            stored = sm.flux_to_wlam_si(np.interp(q_nm, wave_nm, np.asarray(bb.value, float)) / sm.WAVE_M[u1], v1, wm)
+            got = np.asarray(bb.sample(q_nm * sm.wave_factor('nm', u1), waveunit=u1), float)
+            got_si = sm.flux_to_wlam_si(got / sm.WAVE_M[u1], v1, wm)
+            ctx.close('planck=si', got_si / ref_si, np.ones(3), 1e-5, 'blackbody|sample-after-to',
+                      'a Blackbody converted to other units no longer samples Planck\'s law in its current units', desc, scale=1.0)
+        except Exception as e:
+            ctx.check(False, 'planck=si', f'blackbody-to|raises={type(e).__name__}', str(e), desc)
     # ---- Planck ---------------------------------------------------------------------------------------
     nT = ctx.count(25, 200)
     for i in range(nT):
